@@ -1,0 +1,29 @@
+# A5
+# SPDX-License-Identifier: Apache-2.0
+# Copyright (c) A5 contributors
+
+"""
+Event log used by the external verification harness.
+
+Disabled unless the environment variable A5_PY_VERIF is set to "1" when the package is
+imported. When disabled no call site does anything beyond reading the ENABLED flag.
+"""
+
+import os
+from typing import Any, Dict, List
+
+ENABLED = os.environ.get("A5_PY_VERIF") == "1"
+
+_events: List[Dict[str, Any]] = []
+
+
+def emit(event: Dict[str, Any]) -> None:
+    """Record one event (list.append is atomic under the interpreter lock)."""
+    _events.append(event)
+
+
+def drain() -> List[Dict[str, Any]]:
+    """Return and forget all events recorded so far."""
+    out = _events[:]
+    del _events[:len(out)]
+    return out
